@@ -24,7 +24,8 @@ RULE = ("(systematic) for each index rule (name: +1 zero form; prefix: 'same' ze
         "resident key, one fresh key, the empty key) from every reachable joint state, canonicalised under key renaming; "
         "closure = no new canonical state. (walks) long adversarial random walks through TermEncoder.encode_iri / "
         "encode_literal -> Decoder for sizes 8..4000; (row walks) statement-shaped histories through TermEncoder.begin_row with "
-        "tiny tables, where all entry rows of a row are ingested before its terms are resolved (a refused row is fine). Oracles on every transition: ids in [0,size]; live entries <= size; "
+        "tiny tables, where all entry rows of a row are ingested before its terms are resolved (a refused row is fine), and "
+        "histories interrupted by a rejected statement on a real stream (catch-and-continue). Oracles on every transition: ids in [0,size]; live entries <= size; "
         "string resolved by the real reader == string meant; same through an independent table; writer map and reader "
         "table mirror each other. Non-trivial = distinct canonical states in which the table is full (BFS) plus walk "
         "steps that evicted.")
@@ -453,6 +454,43 @@ def row_walk(ctx, rng, sizes: tuple[int, int, int], rows: int, deadline: float):
                      "last_rows": [list(map(list, h)) for h in list(hist)[-3:]]})
 
 
+def interrupted_history(ctx, rng):
+    """Histories interrupted by a rejected statement: the per-statement stream API with one unencodable term.
+
+    Reuses C20's catch-and-continue driver; here only the lookup-mirror consequence is judged: whatever the stream
+    goes on to write must resolve, by the independent decoder, to exactly the accepted statements."""
+    from . import c20
+    from .. import pj as _pj
+
+    phys = rng.choice([1, 2])
+    arity = 3 if phys == 1 else 4
+    v = gen.Vocab(rng, "rdf11", n_ns=rng.randint(1, 2), n_local=rng.randint(3, 5), n_dt=1)
+    stmts = gen.statements(rng, rng.randint(4, 9), arity, "rdf11", vocab=v, p_repeat=rng.choice([.2, .6]))
+    stmts = [tuple(("lit", t[1], None, None) if t[0] == "lit" and t[3] else t for t in st) for st in stmts]
+    cfg = {"physical": phys, "frame_size": rng.choice([1, 3, 250]), "preset": (rng.choice([8, 9, 12]), rng.choice([2, 3, 8]), 0),
+           "logical": _pj.FLAT_LOGICAL[phys], "delimited": True, "generalized": True, "rdf_star": True}
+    need = gen.need_of(stmts, phys, True)
+    cfg["preset"] = (max(cfg["preset"][0], need[1]), max(cfg["preset"][1], need[0]), 0)
+    pos = rng.randrange(len(stmts))
+    fault = (rng.choice([1, 2] + ([3] if arity == 4 else [])), None, rng.choice(["unsupported-term", "tuple-too-short"]))
+    if fault[2] == "tuple-too-short":
+        fault = (arity - 1, None, "tuple-too-short")
+    try:
+        w, info = c20.judge("generic", cfg, stmts, pos, fault)
+    except Exception as e:  # noqa: BLE001
+        ctx.inconc(f"interrupted-history driver failed: {type(e).__name__}: {e}")
+        return
+    ctx.observe("interrupted-histories")
+    if w is not None:
+        w = {"clause": "interrupted-history:" + w["clause"], "kind": "walk", "sizes": list(cfg["preset"]), "mode": "interrupted",
+             "summary": f"history interrupted by a rejected statement ({fault[2]} in slot {fault[0]} at {pos}), sizes {cfg['preset']}: "
+                        + w["summary"]}
+        ctx.violation(w)
+    ctx.case(("interrupted", cfg["preset"], stmts, pos, fault), bool(info.get("rejected")),
+             sample={"kind": "interrupted-history", "sizes": list(cfg["preset"]), "fault": list(fault), "position": pos,
+                     "stream_refused_further_use": info.get("refused")})
+
+
 def _walk_violation(ctx, b: Broken, sizes, mode, hist):
     ctx.violation({"clause": b.clause, "kind": "walk", "sizes": list(sizes), "mode": mode,
                    "history_tail": [list(h) for h in hist],
@@ -488,6 +526,8 @@ def run_shard(ctx):
         sizes = walk_sizes[(i + ctx.shard) % len(walk_sizes)]
         walk(ctx, rng, sizes, 20_000 if ctx.tier == "quick" else 200_000, max(ctx.deadline, time.monotonic() + 3))
         row_sizes = [(8, 1, 1), (8, 2, 2), (8, 3, 1), (9, 2, 0), (8, 0, 2), (12, 4, 3), (16, 3, 3)][(i + ctx.shard) % 7]
+        for k in range(40):
+            interrupted_history(ctx, ctx.rng("interrupted", i, k))
         row_walk(ctx, ctx.rng("rows", i), row_sizes, 3_000 if ctx.tier == "quick" else 30_000,
                  max(ctx.deadline, time.monotonic() + 2))
         i += 1
